@@ -77,6 +77,90 @@ def build_and_audit():
         return res
 
 
+def _theorem_at(lines, ln):
+    """Name of the theorem whose statement/proof contains (1-based) line ln."""
+    name = None
+    for i, l in enumerate(lines[:ln], 1):
+        m = re.match(r"theorem\s+(\S+)", l)
+        if m:
+            name = m.group(1)
+    return name
+
+
+def tie_status():
+    """Regenerates CffVerif/Extracted/Facts.lean from /repo's working tree with harness/cmd/extract and
+    re-checks the obligations of CffVerif/Tie/Facts.lean.  Returns
+    {'obligations': {name: {'ok': bool, 'props': [...]}}, 'extract_summary': str, 'files_read': n}.
+    An obligation that no longer builds is not an infrastructure error: it is reported by the
+    properties that list it."""
+    import hashlib, shutil
+    with C.locked("tie"):
+        tree = C.tree_hash()
+        d = C.cache_dir("tree-" + tree)
+        js = os.path.join(d, "tie.json")
+        if os.path.exists(js):
+            return json.load(open(js))
+        t0 = time.time()
+        exe = os.path.join(d, "extract")
+        with C.locked("harness"):
+            if not os.path.exists(exe):
+                shutil.copy(os.path.join(C.REPO, "go.sum"), os.path.join(C.HARNESS, "go.sum"))
+                p = C.sh(["go", "build", "-o", exe, "./cmd/extract"], cwd=C.HARNESS, env=C.GOENV, check=False, timeout=900)
+                if p.returncode != 0:
+                    raise C.Infra("building cmd/extract failed:\n" + (p.stdout or "")[-3000:])
+        outdir = os.path.join(C.LEAN, "CffVerif", "Extracted")
+        facts = os.path.join(outdir, "Facts.lean")
+        if os.path.exists(facts):
+            os.remove(facts)       # never check a stale file
+        q = C.sh([exe, "-repo", C.REPO, "-out", outdir], env=C.GOENV, check=False, timeout=300)
+        tie_src = os.path.join(C.LEAN, "CffVerif", "Tie", "Facts.lean")
+        lines = open(tie_src).read().split("\n")
+        names, props, doc = [], {}, ""
+        for l in lines:
+            if l.startswith("/--"):
+                doc = l
+            m = re.match(r"theorem\s+(\S+)", l)
+            if m:
+                names.append(m.group(1))
+                pm = re.search(r"\*\*((?:C\d\d ?)+)", doc)
+                props[m.group(1)] = pm.group(1).split() if pm else []
+                doc = ""
+        res = {"obligations": {}, "extract_summary": (q.stdout or "").strip()[-600:], "extract_exit": q.returncode}
+        failed = set()
+        if q.returncode != 0 or not os.path.exists(facts):
+            failed = set(names)        # nothing extracted: no obligation is shown
+            res["build_output"] = "extractor failed"
+        else:
+            with C.locked("lean"):
+                b = C.sh(["lake", "build", "CffVerif.Tie.Facts"], cwd=C.LEAN, check=False, timeout=1800)
+            out = b.stdout or ""
+            if b.returncode != 0:
+                hit = False
+                for m in re.finditer(r"error: \S*Tie/Facts\.lean:(\d+):\d+", out):
+                    n = _theorem_at(lines, int(m.group(1)))
+                    if n:
+                        failed.add(n); hit = True
+                if re.search(r"error: \S*Extracted/Facts\.lean:\d+:\d+", out) or not hit:
+                    failed = set(names)    # the regenerated facts do not even elaborate
+                res["build_output"] = out[-3000:]
+        for n in names:
+            res["obligations"][n] = {"ok": n not in failed, "props": props[n]}
+        m = re.search(r"filesRead=(\d+)", res["extract_summary"])
+        res["files_read"] = int(m.group(1)) if m else 0
+        res["wall_s"] = round(time.time() - t0, 1)
+        with open(js, "w") as f:
+            json.dump(res, f)
+        return res
+
+
+def tie_for(pid):
+    """(names, failed names) of the tie obligations property pid lists."""
+    st = tie_status()
+    mine = [n for n, v in st["obligations"].items() if pid in v["props"]]
+    bad = [n for n in mine if not st["obligations"][n]["ok"]]
+    return mine, bad, st
+
+
 def driver_path():
     p = os.path.join(C.LEAN, ".lake", "build", "bin", "driver")
     if not os.path.exists(p):
